@@ -118,10 +118,41 @@ func zzC11_verify(algoIdx, sigLen, hasherKind int) {
 	refValid := nondetBool()
 	if verifNative() && refValid && sigLen == 64 {
 		d := ecdsaHasher(hasherKind).ComputeHash(msg)
-		r, s2, e := ecdsa.Sign(rand.Reader, sk.(*prKeyECDSA).goPrKey, d[:32])
-		if e == nil {
-			r.FillBytes(sig[:32])
-			s2.FillBytes(sig[32:])
+		// keep the model's s (its bit pattern may be what matters, e.g. leading zero bytes): choose a nonce k, take
+		// r = x(k*G) mod n and solve for the private key d = (s*k - z) / r; fall back to an ordinary reference
+		// signature when the model's s is unusable
+		built := false
+		var curve elliptic.Curve = elliptic.P256()
+		if algoIdx == 1 {
+			curve = btcec.S256()
+		}
+		n := curve.Params().N
+		sv := new(big.Int).SetBytes(sig[32:])
+		if sv.Sign() != 0 && sv.Cmp(n) < 0 {
+			k := big.NewInt(0x5eed1234567)
+			x1, _ := curve.ScalarBaseMult(k.Bytes())
+			r := new(big.Int).Mod(x1, n)
+			z := new(big.Int).SetBytes(d[:32])
+			dk := new(big.Int).Mul(sv, k)
+			dk.Sub(dk, z)
+			dk.Mul(dk, new(big.Int).ModInverse(r, n))
+			dk.Mod(dk, n)
+			if r.Sign() != 0 && dk.Sign() != 0 {
+				kb := make([]byte, 32)
+				dk.FillBytes(kb)
+				if sk2, e := DecodePrivateKey(algo, kb); e == nil {
+					sk, pk = sk2, sk2.PublicKey()
+					r.FillBytes(sig[:32])
+					built = true
+				}
+			}
+		}
+		if !built {
+			r, s2, e := ecdsa.Sign(rand.Reader, sk.(*prKeyECDSA).goPrKey, d[:32])
+			if e == nil {
+				r.FillBytes(sig[:32])
+				s2.FillBytes(sig[32:])
+			}
 		}
 	}
 	sig0 := append([]byte{}, sig...)
